@@ -28,6 +28,7 @@ struct SchedParams {
 	uint32_t jitter_us = 0;      // usleep(d) sleeps d + U[0,jitter]
 	uint32_t preempt_permille = 0;   // chance that a task is descheduled at a lock / unlock point ...
 	uint32_t preempt_max_us = 0;     // ... for up to this long (simulated time passes: the "slow thread" fault)
+	bool libc_yield = false;      // malloc/free/strdup/strcmp/memcpy calls of the library are preemption points too
 	bool glib_yield = false;      // GLib container calls are preemption points too (probability fn_yield_permille)
 	uint32_t grid_us = 1;        // >1: every wake-up and every frame start is rounded up to a multiple of this (see grid_round)
 	uint64_t epoch0_us = 1700000000ULL * 1000000ULL;
